@@ -101,6 +101,58 @@ var logicalOperations = map[string]interface{}{
 	"or":  or,
 }
 
+// isNumber reports whether the operand is one of the two numeric types
+// a record or a literal can hold.
+func isNumber(operand interface{}) bool {
+	switch operand.(type) {
+	case int64, float64:
+		return true
+	}
+	return false
+}
+
+// scalarEqual compares two non-array operands. Two numbers are compared
+// numerically; any other pair is compared through its string form.
+func scalarEqual(operand1 interface{}, operand2 interface{}) bool {
+	if isNumber(operand1) && isNumber(operand2) {
+		return float64Operand(operand1) == float64Operand(operand2)
+	}
+	return stringOperand(operand1) == stringOperand(operand2)
+}
+
+// deepEqual is reflect.DeepEqual except that numbers are compared numerically.
+func deepEqual(operand1 interface{}, operand2 interface{}) bool {
+	switch operand1 := operand1.(type) {
+	case []interface{}:
+		operand2, ok := operand2.([]interface{})
+		if !ok || len(operand1) != len(operand2) {
+			return false
+		}
+		for i := range operand1 {
+			if !deepEqual(operand1[i], operand2[i]) {
+				return false
+			}
+		}
+		return true
+	case map[string]interface{}:
+		operand2, ok := operand2.(map[string]interface{})
+		if !ok || len(operand1) != len(operand2) {
+			return false
+		}
+		for k, v1 := range operand1 {
+			v2, ok := operand2[k]
+			if !ok || !deepEqual(v1, v2) {
+				return false
+			}
+		}
+		return true
+	}
+	if isNumber(operand1) && isNumber(operand2) {
+		return float64Operand(operand1) == float64Operand(operand2)
+	}
+	return reflect.DeepEqual(operand1, operand2)
+}
+
 func eql(operand1 interface{}, operand2 interface{}) bool {
 	switch operand1 := operand1.(type) {
 	case *regexp.Regexp:
@@ -108,10 +160,10 @@ func eql(operand1 interface{}, operand2 interface{}) bool {
 	case []interface{}:
 		switch operand2.(type) {
 		case []interface{}:
-			return reflect.DeepEqual(operand1, operand2)
+			return deepEqual(operand1, operand2)
 		default:
 			for _, i := range operand1 {
-				if stringOperand(i) == stringOperand(operand2) {
+				if scalarEqual(i, operand2) {
 					return true
 				}
 			}
@@ -123,13 +175,13 @@ func eql(operand1 interface{}, operand2 interface{}) bool {
 			return operand2.MatchString(stringOperand(operand1))
 		case []interface{}:
 			for _, i := range operand2 {
-				if stringOperand(operand1) == stringOperand(i) {
+				if scalarEqual(operand1, i) {
 					return true
 				}
 			}
 			return false
 		default:
-			return stringOperand(operand1) == stringOperand(operand2)
+			return scalarEqual(operand1, operand2)
 		}
 	}
 }
@@ -141,10 +193,10 @@ func neq(operand1 interface{}, operand2 interface{}) bool {
 	case []interface{}:
 		switch operand2.(type) {
 		case []interface{}:
-			return !reflect.DeepEqual(operand1, operand2)
+			return !deepEqual(operand1, operand2)
 		default:
 			for _, i := range operand1 {
-				if stringOperand(i) == stringOperand(operand2) {
+				if scalarEqual(i, operand2) {
 					return false
 				}
 			}
@@ -156,13 +208,13 @@ func neq(operand1 interface{}, operand2 interface{}) bool {
 			return !operand2.MatchString(stringOperand(operand1))
 		case []interface{}:
 			for _, i := range operand2 {
-				if stringOperand(operand1) == stringOperand(i) {
+				if scalarEqual(operand1, i) {
 					return false
 				}
 			}
 			return true
 		default:
-			return stringOperand(operand1) != stringOperand(operand2)
+			return !scalarEqual(operand1, operand2)
 		}
 	}
 }
